@@ -1,4 +1,6 @@
 """C21 - decompiled integer code computes what the bytecode computes."""
+import re
+
 from tools.tr import optable_tr
 from tools.vlib import javadiff as J
 from tools.vlib.coqfmt import Err, z, coq_list
@@ -218,6 +220,8 @@ def classify_one(m, tuples, r):
         return (None, "decompiling raised %s" % r["decompile_error"])
     if "error" in r:
         e = r["error"]
+        if re.search(r"[(\s](?:int|long|short|byte|char|boolean|float|double) v\d+ [-*/%+&|^<>)]", e):
+            return ("KF-C21-inline-declaration", "a variable is declared in the middle of an expression: its definition was propagated into one use and removed, another use was left")
         if " cmp " in e:
             return ("KF-C21-cmp-long-value", "the source holds a 'cmp' expression, which is not Java")
         if "cannot find symbol" in e or "might not have been initialized" in e or "is already defined" in e:
@@ -252,7 +256,7 @@ def oracle_structured(case, res):
 
 
 def classify(case, res, why):
-    for k in ("KF-C21-cmp-long-value", "KF-C21-declaration-scope", "KF-C21-dead-division", "KF-C21-variable-type"):
+    for k in ("KF-C21-cmp-long-value", "KF-C21-declaration-scope", "KF-C21-dead-division", "KF-C21-variable-type", "KF-C21-inline-declaration"):
         if k in why:
             return k
     return None
